@@ -350,13 +350,175 @@ Definition defect_class (H : hashfun) (cfg : config) (k : kind) (steps : list st
   end.
 
 (* ------------------------------------------------------------------------------------------ *)
-(* Correspondence cases *)
-Definition table := list ((algo * str) * str).
+(* Filegroups of ONE PACKAGE within ONE plz invocation (src/build/filegroup.go, and the filegroup branch of
+   buildTarget).  Several filegroups may export the same file; the singleton filegroupBuilder keeps, for
+   the life of the process, the memo `built : map[string]bool` (output path -> did putting it in place
+   change the file), and a later filegroup that exports a file already in the memo is handed the
+   RECORDED verdict.  A filegroup is verified (calculateAndCheckRuleHash) only `if changed`, where
+   changed = some file verdict is true, or some source is a target of the same package (source path ==
+   output path, so the file comparison always says "same") whose State() < core.Unchanged, i.e. which
+   was Built or restored from the cache (Cached) in this invocation.  *)
 
-Fixpoint H_of (t : table) (a : algo) (x : str) : str :=
-  match t with
+(* the states a finished source target can be in (core.BuildTargetState, local builds) *)
+Inductive tstate := TBuilt | TCached | TUnchanged | TReused.
+
+Definition tstate_name (t : tstate) : str :=
+  match t with TBuilt => s "Built" | TCached => s "Cached" | TUnchanged => s "Unchanged" | TReused => s "Reused" end.
+
+(* `state.Graph.TargetOrDie(l).State() < core.Unchanged` *)
+Definition triggers (t : tstate) : bool :=
+  match t with TBuilt | TCached => true | TUnchanged | TReused => false end.
+
+(* a source of a filegroup: a plain file of the source tree or an output of a target of another package
+   (from <> to), or an output of a target of the same package (from = to) *)
+Inductive origin := FromFile | FromTarget (st : tstate).
+
+Record fsrc := { s_path : N; s_out : out; s_origin : origin }.   (* s_out: what `from` holds *)
+Record fgdef := { g_declared : list str; g_srcs : list fsrc }.   (* sources in the sorted order of the output names *)
+
+Definition fdisk := list (N * out).     (* plz-out/gen/<pkg>: output path -> content; the first binding counts *)
+Definition fmemo := list (N * bool).    (* filegroupBuilder.built *)
+
+Fixpoint flookup {A : Type} (p : N) (l : list (N * A)) : option A :=
+  match l with
+  | [] => None
+  | (q, a) :: r => if N.eqb q p then Some a else flookup p r
+  end.
+
+Definition fset (p : N) (o : out) (d : fdisk) : fdisk := (p, o) :: d.
+Definition fremove (p : N) (d : fdisk) : fdisk := filter (fun kv => negb (N.eqb (fst kv) p)) d.
+
+(* the memo hit of filegroupBuilder.Build: `if changed, present := builder.built[to]; present { return changed, nil }` *)
+Definition memo_hit (recorded : bool) : bool := recorded.
+(* the two stores: `builder.built[to] = false` (same file) and `builder.built[to] = true` (file put in place) *)
+Definition memo_store_same : bool := false.
+Definition memo_store_built : bool := true.
+
+(* isSameFileContent(from, to): `to` exists and (from == to, or the PathHasher hashes are equal) *)
+Definition fg_same (H : hashfun) (fn : algo) (d : fdisk) (sr : fsrc) : bool :=
+  match flookup (s_path sr) d with
+  | None => false
+  | Some o =>
+      match s_origin sr with
+      | FromTarget _ => true
+      | FromFile => str_eqb (path_hash H fn o) (path_hash H fn (s_out sr))
+      end
+  end.
+
+(* `from` exists: a source file always does; an output of a same-package target is the file at `to` itself *)
+Definition fg_from_exists (d : fdisk) (sr : fsrc) : bool :=
+  match s_origin sr with
+  | FromFile => true
+  | FromTarget _ => match flookup (s_path sr) d with Some _ => true | None => false end
+  end.
+
+(* filegroupBuilder.Build for one file: new memo, new disk, changed, error *)
+Definition fg_file (H : hashfun) (fn : algo) (m : fmemo) (d : fdisk) (sr : fsrc) : fmemo * fdisk * bool * bool :=
+  if negb (fg_from_exists d sr) then (m, d, true, true)
+  else
+    match flookup (s_path sr) m with
+    | Some b => (m, d, memo_hit b, false)
+    | None =>
+        if fg_same H fn d sr then ((s_path sr, memo_store_same) :: m, d, false, false)
+        else ((s_path sr, memo_store_built) :: m, fset (s_path sr) (s_out sr) d, true, false)
+    end.
+
+(* the first loop of buildFilegroup; an error returns at once *)
+Fixpoint fg_place (H : hashfun) (fn : algo) (m : fmemo) (d : fdisk) (srcs : list fsrc) : fmemo * fdisk * bool * bool :=
+  match srcs with
+  | [] => (m, d, false, false)
+  | sr :: r =>
+      match fg_file H fn m d sr with
+      | (m1, d1, c, true) => (m1, d1, true, true)
+      | (m1, d1, c, false) =>
+          match fg_place H fn m1 d1 r with
+          | (m2, d2, c2, e2) => (m2, d2, c || c2, e2)
+          end
+      end
+  end.
+
+(* the second loop of buildFilegroup *)
+Definition src_triggers (sr : fsrc) : bool :=
+  match s_origin sr with FromFile => false | FromTarget st => triggers st end.
+
+Fixpoint fg_outs (d : fdisk) (srcs : list fsrc) : option (list out) :=
+  match srcs with
+  | [] => Some []
+  | sr :: r =>
+      match flookup (s_path sr) d, fg_outs d r with
+      | Some o, Some os => Some (o :: os)
+      | _, _ => None
+      end
+  end.
+
+(* RemoveOutputs(target) *)
+Fixpoint fg_remove (srcs : list fsrc) (d : fdisk) : fdisk :=
+  match srcs with
+  | [] => d
+  | sr :: r => fremove (s_path sr) (fg_remove r d)
+  end.
+
+(* fr_seen: the outputs the verification looked at (None: it did not run, or an input/output was missing) *)
+Record fres := { fr_ok : bool; fr_checked : bool; fr_seen : option (list out) }.
+
+Definition fg_build (H : hashfun) (cfg : config) (m : fmemo) (d : fdisk) (g : fgdef) : fmemo * fdisk * fres :=
+  match fg_place H (hashfn cfg) m d (g_srcs g) with
+  | (m1, d1, changed, err) =>
+      if err then (m1, fg_remove (g_srcs g) d1, {| fr_ok := false; fr_checked := false; fr_seen := None |})
+      else if changed || existsb src_triggers (g_srcs g) then
+        match fg_outs d1 (g_srcs g) with
+        | None => (m1, fg_remove (g_srcs g) d1, {| fr_ok := false; fr_checked := true; fr_seen := None |})
+        | Some outs =>
+            if accepted (check_rule_hashes H cfg outs (g_declared g))
+            then (m1, d1, {| fr_ok := true; fr_checked := true; fr_seen := Some outs |})
+            else (m1, fg_remove (g_srcs g) d1, {| fr_ok := false; fr_checked := true; fr_seen := Some outs |})
+        end
+      else (m1, d1, {| fr_ok := true; fr_checked := false; fr_seen := None |})
+  end.
+
+Record fevent := { fe_def : fgdef; fe_res : fres; fe_after : fdisk }.
+
+(* the filegroups of one invocation, in the order in which they are built *)
+Fixpoint fg_run (H : hashfun) (cfg : config) (m : fmemo) (d : fdisk) (gs : list fgdef) : list fevent * fdisk :=
+  match gs with
+  | [] => ([], d)
+  | g :: r =>
+      match fg_build H cfg m d g with
+      | (m1, d1, res) =>
+          let '(evs, d2) := fg_run H cfg m1 d1 r in
+          ({| fe_def := g; fe_res := res; fe_after := d1 |} :: evs, d2)
+      end
+  end.
+
+(* between and before invocations: plz-out is deleted; a generating target of the package puts (built,
+   restored from the cache, or left) its output in place before the filegroups over it are built; an
+   invocation starts with an empty memo *)
+Inductive hstep :=
+| HWipe
+| HPut (p : N) (o : out)
+| HRun (gs : list fgdef).
+
+(* per invocation: the disk it started from, its events *)
+Fixpoint fg_hist (H : hashfun) (cfg : config) (d : fdisk) (steps : list hstep) : list (fdisk * list fevent * fdisk) :=
+  match steps with
   | [] => []
-  | ((a', x'), d) :: r => if algo_eqb a a' && str_eqb x x' then d else H_of r a x
+  | HWipe :: r => fg_hist H cfg [] r
+  | HPut p o :: r => fg_hist H cfg (fset p o d) r
+  | HRun gs :: r =>
+      let '(evs, d') := fg_run H cfg [] d gs in (d, evs, d') :: fg_hist H cfg d' r
+  end.
+
+(* the one known defect class, stated on the disk the INVOCATION started from (no memo involved): every
+   output was already in place with the content of its source, and no same-package source was built or
+   restored in this invocation *)
+Definition fg_in_place (H : hashfun) (cfg : config) (d0 : fdisk) (g : fgdef) : bool :=
+  forallb (fun sr => fg_same H (hashfn cfg) d0 sr && negb (src_triggers sr)) (g_srcs g).
+
+Definition origin_eqb (a b : origin) : bool :=
+  match a, b with
+  | FromFile, FromFile => true
+  | FromTarget x, FromTarget y => str_eqb (tstate_name x) (tstate_name y)
+  | _, _ => false
   end.
 
 Definition out_eqb (a b : out) : bool :=
@@ -364,6 +526,31 @@ Definition out_eqb (a b : out) : bool :=
   | OFile x, OFile y => str_eqb x y
   | ODir x, ODir y => list_eqb str_eqb x y
   | _, _ => false
+  end.
+
+Definition fsrc_eqb (a b : fsrc) : bool :=
+  N.eqb (s_path a) (s_path b) && out_eqb (s_out a) (s_out b) && origin_eqb (s_origin a) (s_origin b).
+
+(* within one invocation a path has one source *)
+Definition run_consistent (gs : list fgdef) : bool :=
+  let all := flat_map g_srcs gs in
+  forallb (fun a => forallb (fun b => negb (N.eqb (s_path a) (s_path b)) || fsrc_eqb a b) all) all.
+
+Fixpoint hist_consistent (steps : list hstep) : bool :=
+  match steps with
+  | [] => true
+  | HRun gs :: r => run_consistent gs && hist_consistent r
+  | _ :: r => hist_consistent r
+  end.
+
+(* ------------------------------------------------------------------------------------------ *)
+(* Correspondence cases *)
+Definition table := list ((algo * str) * str).
+
+Fixpoint H_of (t : table) (a : algo) (x : str) : str :=
+  match t with
+  | [] => []
+  | ((a', x'), d) :: r => if algo_eqb a a' && str_eqb x x' then d else H_of r a x
   end.
 
 Definition verdict_eqb (a b : verdict) : bool :=
@@ -388,14 +575,25 @@ Fixpoint all2 {A B} (f : A -> B -> bool) (a : list A) (b : list B) : bool :=
   | _, _ => false
   end.
 
+(* what the harness sees of one invocation: per filegroup built, whether it succeeded; and afterwards the
+   content of the given output paths (None = absent) *)
+Record robs := { ro_ok : list bool; ro_disk : list (N * option out) }.
+
+Definition robs_eqb (r : fdisk * list fevent * fdisk) (o : robs) : bool :=
+  let '(_, evs, d') := r in
+  list_eqb Bool.eqb (map (fun e => fr_ok (fe_res e)) evs) (ro_ok o)
+  && forallb (fun po => option_eqb out_eqb (flookup (fst po) d') (snd po)) (ro_disk o).
+
 Inductive case :=
 | CCheck (cfg : config) (outs : list out) (declared : list str) (tbl : table) (observed : verdict)
 | CUnprefix (declared : list str) (observed : list str)
-| CHist (cfg : config) (k : kind) (steps : list step) (tbl : table) (observed : list obs).
+| CHist (cfg : config) (k : kind) (steps : list step) (tbl : table) (observed : list obs)
+| CFg (cfg : config) (steps : list hstep) (tbl : table) (observed : list robs).
 
 Definition check (c : case) : bool :=
   match c with
   | CCheck cfg outs declared tbl v => verdict_eqb (check_rule_hashes (H_of tbl) cfg outs declared) v
   | CUnprefix declared observed => list_eqb str_eqb (unprefixed declared) observed
   | CHist cfg k steps tbl observed => all2 obs_eqb (run (H_of tbl) cfg k empty_state steps) observed
+  | CFg cfg steps tbl observed => all2 robs_eqb (fg_hist (H_of tbl) cfg [] steps) observed
   end.
